@@ -45,8 +45,15 @@ def optStepOp (a : V) : R V := do
   pure (.o [("clipped", V.fs c), ("update", V.fs (adamFirstStep Float.sqrt lr eps c)),
             ("norm", .f (Float.sqrt (normSq g))), ("clipped_norm", .f (Float.sqrt (normSq c)))])
 
+/-- op `opt_steps`: clip-by-global-norm then Adam over a sequence of gradients -/
+def optStepsOp (a : V) : R V := do
+  let maxNorm ← (← a.get "max_norm").asF
+  let lr ← (← a.get "lr").asF
+  let grads ← (← a.get "grads").asFss
+  pure (.l ((clipThenAdam Float.sqrt maxNorm lr 1e-8 0.9 0.999 grads).map V.fs))
+
 def lossOps : List (String × (V → R V)) :=
   [("ppo_loss", ppoLossOp), ("a2c_loss", acLossOp false), ("reinforce_loss", acLossOp true),
-   ("opt_step", optStepOp)]
+   ("opt_step", optStepOp), ("opt_steps", optStepsOp)]
 
 end Lerax.Driver
